@@ -277,6 +277,8 @@ pub fn c20(cx: &Cx) -> i32 {
     crate::misc::mentions_param_rule(cx, &mut rep);
     where_rules(cx, &mut rep);
     let coll = run_hyg(cx, &mut rep, &["TP-parse", "TP-zero-arm-match", "TP-nested-fn-types", "TP-free-fn-self", "TP-binders-generic"]);
+    // an unsized last field is accepted without an error of derive_ex's own: the generated code must not need `Sized` of it
+    unsized_rules(&coll, &mut rep);
     // generic / lifetime binders with fixed names clash with the user's parameters (E0403 / E0496): the C13 rule restricted to those kinds
     let mut n = 0;
     for c in &coll {
@@ -364,6 +366,15 @@ pub fn c12(cx: &Cx) -> i32 {
     let shapes: BTreeSet<String> = coll.iter().map(|c| c.shape.clone()).collect();
     rep.analysed.insert("shapes rendered".into(), json!(shapes));
     rep.floor("distinct shapes rendered", shapes.len(), 5);
+    unsized_rules(&coll, &mut rep);
+    rep.assumptions = vec!["behavioural identity with the standard derives on values follows from the specialisation of the C01/C06/C07/C10/C11 rules at the zero-attribute state; it is not evaluated".into(), "the description of what the standard derives generate (field-wise, declaration order, `&&field` to the formatter, names without r#) is trusted".into()];
+    rep.finish("other", "static analysis: at the all-absent attribute state the five comparison models select the default comparator for every field (no ignore, reverse or error); every role is printed for 0, 1 and 2 elements (unit / empty / single-field structs, enums without variants) and each instance must parse, must not match a reference with zero arms, must hand fields to the formatter as a reference to a reference and must print names without stringify!", "rule instances = (rule, role, shape, distinct instance)")
+}
+
+
+/// TP-unsized-field / TP-names / TP-unsized-helper: what the generated code needs of a field type beyond the derived trait.
+/// An unsized last field (accepted by the standard derives, and by derive_ex without any error of its own) must still type-check.
+fn unsized_rules(coll: &[Collected], rep: &mut Report) {
     // TP-unsized-field and TP-names on Debug instances
     for c in coll.iter().filter(|c| c.label.contains("Debug")) {
         let Ok(inst) = &*c.inst else { continue };
@@ -392,10 +403,39 @@ pub fn c12(cx: &Cx) -> i32 {
             rep.check(bad_name.is_none(), "TP-names", &c.label, "stringify", &format!("a name is printed through {}: raw identifiers keep their `r#` prefix, unlike the standard derive", bad_name.clone().unwrap_or_default()), &c.site, json!({"shape": c.shape}));
         }
     }
-    rep.assumptions = vec!["behavioural identity with the standard derives on values follows from the specialisation of the C01/C06/C07/C10/C11 rules at the zero-attribute state; it is not evaluated".into(), "the description of what the standard derives generate (field-wise, declaration order, `&&field` to the formatter, names without r#) is trusted".into()];
-    rep.finish("other", "static analysis: at the all-absent attribute state the five comparison models select the default comparator for every field (no ignore, reverse or error); every role is printed for 0, 1 and 2 elements (unit / empty / single-field structs, enums without variants) and each instance must parse, must not match a reference with zero arms, must hand fields to the formatter as a reference to a reference and must print names without stringify!", "rule instances = (rule, role, shape, distinct instance)")
+    // TP-unsized-helper: a generated fn item that takes a field by reference through a type parameter must relax `Sized` on it
+    let mut nfn = 0;
+    for c in coll {
+        let Ok(inst) = &*c.inst else { continue };
+        struct FnItems<'a> { out: Vec<&'a syn::ItemFn> }
+        impl<'ast> Visit<'ast> for FnItems<'ast> { fn visit_item_fn(&mut self, f: &'ast syn::ItemFn) { self.out.push(f); syn::visit::visit_item_fn(self, f); } }
+        let mut v = FnItems { out: vec![] };
+        v.visit_file(&inst.file);
+        for f in v.out {
+            let tps: Vec<&syn::TypeParam> = f.sig.generics.type_params().collect();
+            for inp in &f.sig.inputs {
+                let syn::FnArg::Typed(pt) = inp else { continue };
+                let syn::Type::Reference(r) = &*pt.ty else { continue };
+                // fields reach helpers by shared reference; `&mut H` is the trait method's own (sized) state parameter handed on
+                if r.mutability.is_some() { continue; }
+                let relaxed = |bounds: &syn::punctuated::Punctuated<syn::TypeParamBound, syn::Token![+]>| bounds.iter().any(|b| matches!(b, syn::TypeParamBound::Trait(t) if matches!(t.modifier, syn::TraitBoundModifier::Maybe(_))));
+                let verdict = match &*r.elem {
+                    syn::Type::ImplTrait(it) => Some(relaxed(&it.bounds)),
+                    syn::Type::Path(tp) if tp.qself.is_none() && tp.path.segments.len() == 1 => {
+                        let name = &tp.path.segments[0].ident;
+                        tps.iter().find(|p| p.ident == *name).map(|p| relaxed(&p.bounds) || f.sig.generics.where_clause.as_ref().map(|w| w.predicates.iter().any(|wp| matches!(wp, syn::WherePredicate::Type(t) if quote::ToTokens::to_token_stream(&t.bounded_ty).to_string() == name.to_string() && relaxed(&t.bounds)))).unwrap_or(false))
+                    }
+                    _ => None,
+                };
+                if let Some(ok) = verdict {
+                    nfn += 1;
+                    rep.check(ok, "TP-unsized-helper", &c.label, &f.sig.ident.to_string(), &format!("the generated fn `{}` takes a value by reference through a type parameter that is implicitly `Sized`: calling it with an unsized last field does not compile (the standard derive's assertion is `?Sized`)", f.sig.ident), &c.site, json!({"shape": c.shape}));
+                }
+            }
+        }
+    }
+    rep.floor("generated helper fns with a by-reference type parameter", nfn, 30);
 }
-
 
 /// TP-where-retained / TP-where-trait (C03): every generated impl carries the where-clause that the
 /// builder collected, its generics come from the item's generics, and each bounded field type is bounded by the derived trait
